@@ -34,6 +34,13 @@ from checks.c07 import breaks_family, apply_canary, undo_canary
 PID = 'C14'
 
 
+def radial_breaks(rpath, ncells):
+    """'cu': uniform breaks, uniform-cubic flag; 'nu': general spline path on uniform breaks; 'ng': general path on graded breaks"""
+    if rpath == 'ng':
+        return [Fr(1) + b for b in breaks_family('graded', ncells)]
+    return dist.uniform_breaks(1, 3, ncells)
+
+
 class Mat:
     """dense object-dtype stand-in for the scipy.sparse matrices of the solver"""
 
@@ -86,7 +93,7 @@ def work(item):
         return sol
     numenv.enable(extra_modules=[(ps, dict(sparse=SparseStub, spsolve=spsolve))])
     symx.set_bv(None)
-    breaks = dist.uniform_breaks(1, 3, ncells) if rpath == 'cu' else [Fr(1) + b for b in breaks_family('graded', ncells)]
+    breaks = radial_breaks(rpath, ncells)
     nz = 2
     nranks = int(np.prod(nprocs))
     st = {}
@@ -156,7 +163,7 @@ def work(item):
         quad = []
         for c in range(ncells):
             lo, hi = breaks[c], breaks[c + 1]
-            half = (breaks[1] - breaks[0]) / 2          # the code uses the first cell's half width for all cells
+            half = (hi - lo) / 2                        # Gauss-Legendre on the cell [lo, hi]
             mid = (lo + hi) / 2
             for p, w in zip(pts, wts):
                 quad.append((mid + symx.rationalise(float(p)) * half, symx.rationalise(float(w)) * half, c))     # same float->rational reading as the proxies apply
@@ -251,7 +258,8 @@ def work(item):
             prob = float_replay(m, ps, item)
             rep = dict(kind='fem', item=[str(x) for x in item[:10]], facts=[str(h) for h in hits], concrete=prob, canary=bool(canary))
             if prob:
-                res['violations'].append(('fem:%s' % hits[0][0].split(' ')[0], '%s; %s' % (hits[0], prob), rep))
+                key = 'fem:nonuniform_radial_breaks' if rpath == 'ng' else 'fem:%s' % hits[0][0].split(' ')[0]
+                res['violations'].append((key, '%s; %s' % (hits[0], prob), rep))
             else:
                 res['inconclusive'].append('model does not reproduce in floats: %r' % rep)
         else:
@@ -271,7 +279,7 @@ def float_replay(m, ps, item):
     rdeg, ncells, rpath, qdeg, ntheta, nprocs, lN, uN, a_const, c_zero, _ = item
     numenv.disable()
     try:
-        breaks = dist.uniform_breaks(1, 3, ncells) if rpath == 'cu' else [Fr(1) + b for b in breaks_family('graded', ncells)]
+        breaks = radial_breaks(rpath, ncells)
         fb = np.array([float(b) for b in breaks])
         kn = m['spl'].make_knots(fb, rdeg, False)
         rb = m['spl'].BSplines(kn, rdeg, False, rpath == 'cu')
@@ -289,9 +297,8 @@ def float_replay(m, ps, item):
         nb = ncells + rdeg
         from numpy.polynomial.legendre import leggauss
         pts, wts = leggauss(qdeg // 2 + 1)
-        half = (fb[1] - fb[0]) / 2
-        X = np.concatenate([(fb[c] + fb[c + 1]) / 2 + pts * half for c in range(ncells)])
-        W = np.concatenate([wts * half for c in range(ncells)])
+        X = np.concatenate([(fb[c] + fb[c + 1]) / 2 + pts * (fb[c + 1] - fb[c]) / 2 for c in range(ncells)])
+        W = np.concatenate([wts * (fb[c + 1] - fb[c]) / 2 for c in range(ncells)])
         cellof = np.concatenate([[c] * len(pts) for c in range(ncells)])
 
         def fbasis(x, cell, der):
@@ -375,6 +382,7 @@ def main():
     items.append((1, 2, 'nu', 2, 4, (1, 1), (), (), Fr(-1), False, None))
     items.append((2, 3, 'nu', 4, 4, (2, 1), (0,), (), Fr(-1), False, None))
     items.append((3, 2, 'cu', 6, 4, (2, 1), (0, 1), (-1,), Fr(2), False, None))
+    items.append((2, 3, 'ng', 4, 4, (1, 1), (), (), Fr(-1), False, None))          # non-uniform radial breaks
     items.append((2, 2, 'nu', 4, 4, (1, 1), (0,), (0,), Fr(-1), True, None))       # ill-posed: must be refused
     items.append((2, 2, 'nu', 4, 4, (1, 1), (0,), (0,), Fr(-1), False, None))      # same BCs with C != 0: accepted (or refused only if C vanishes at all nodes)
     if not quick:
